@@ -41,6 +41,11 @@ DblClause(c) ==
   ELSE OK
 
 \* ---- C04
+\* the graph the ARCHITECTURE demands at least (must-edges of the abstract kernel, each with the smallest weight the
+\* statement allows): the critical path the analysis reports cannot be shorter than the longest chain in it
+ArchGraph(c) ==
+  LET k == c.k  E == MustEdges(k) IN
+  [n |-> c.n, E |-> E, w |-> [p \in E |-> Min(WeightAllowed(k, p[1], p[2]))], lat |-> c.lat, latwo |-> c.latwo, lds |-> c.lds]
 CpClause(c) ==
   LET g == G1(c)
       marked == Asc(ToSet(c.cpMarked))
@@ -54,6 +59,7 @@ CpClause(c) ==
   ELSE IF ~IsChain(g, marked) THEN <<"cp-marked-not-chain", marked>>
   ELSE IF cells # c.cp THEN <<"cp-cells-sum", <<cells, c.cp>> >>
   ELSE IF "cpStray" \in DOMAIN c /\ Len(c.cpStray) > 0 THEN <<"cp-share-off-the-path", c.cpStray>>
+  ELSE IF "k" \in DOMAIN c /\ c.cp < CPLo(ArchGraph(c)) THEN <<"cp-below-architectural-chain", <<c.cp, CPLo(ArchGraph(c))>> >>
   ELSE IF c.cp \notin ChainLenVals(g, marked) THEN <<"cp-marked-length", <<c.cp, ChainLenVals(g, marked)>> >>
   ELSE OK
 
